@@ -44,8 +44,14 @@ Fixpoint pget {A} (k : pkey) (l : list (pkey * A)) : option A :=
 Fixpoint pset {A} (k : pkey) (v : A) (l : list (pkey * A)) : list (pkey * A) :=
   match l with [] => [(k, v)] | (k', v') :: r => if pkey_eqb k' k then (k, v) :: r else (k', v') :: pset k v r end.
 
+Fixpoint pdel {A} (k : pkey) (l : list (pkey * A)) : list (pkey * A) :=
+  match l with [] => [] | (k', v') :: r => if pkey_eqb k' k then pdel k r else (k', v') :: pdel k r end.
+
 (* ---------------------------------------------------------------- bank *)
 Definition bank := Z -> fcoins.
+(* x/recovery RotateRecoveryAddress: every coin of the old address moves to the new one *)
+Definition bank_rotate (b : bank) (a a' : Z) : bank :=
+  fun x => if x =? a then czero else if x =? a' then cadd (b a') (b a) else b x.
 Definition bank_send (b : bank) (from to : Z) (amt : fcoins) : bank :=
   fun a => if a =? from then (if a =? to then b a else csub (b a) amt)
            else if a =? to then cadd (b a) amt else b a.
@@ -63,6 +69,20 @@ Record sstate := mkS {
   s_pools : list (Z * pool);
   s_claims : list (pkey * Z);    (* (pool, account) -> LastClaim *)
   s_bank : bank }.
+
+(* x/recovery RotateRecoveryAddress, spending part: for every pool the claim record of the old address
+   is removed and written under the new address with the SAME LastClaim *)
+Definition claims_rotate (a a' : Z) (cl : list (pkey * Z)) : list (pkey * Z) :=
+  map (fun e => if snd (fst e) =? a then ((fst (fst e), a'), snd e) else e)
+      (filter (fun e => negb ((snd (fst e) =? a') && match pget (fst (fst e), a) cl with Some _ => true | None => false end)) cl).
+(* the gov actor (roles) moves to the new address; [order] = all addresses in store (byte) order *)
+Definition actors_rotate (order : list Z) (a a' : Z) (acts : list (Z * list Z)) : list (Z * list Z) :=
+  match zget a acts with
+  | None => acts
+  | Some r =>
+      let acts' := (a', r) :: filter (fun e => negb ((fst e =? a) || (fst e =? a'))) acts in
+      flat_map (fun id => match zget id acts' with Some x => [(id, x)] | None => [] end) order
+  end.
 
 Section Cfg.
 (* which variant of keeper.EndBlocker the tree has (decided by a probe in the harness): [true] = the
@@ -264,7 +284,12 @@ Inductive sp_op : Type :=
 | OWithdraw (p : Z) (bens : list Z) (amt : lcoins)   (* passed SpendingPoolWithdrawProposal *)
 | OEndBlock
 | OBankSend (a : Z) (amt : lcoins)       (* plain bank transfer to the module account *)
-| OBadQuorum (upd : bool) (p : Z) (T : terms).   (* create / update carrying a vote quorum outside [0,1] *)
+| OBadQuorum (upd : bool) (p : Z) (T : terms)    (* create / update carrying a vote quorum outside [0,1] *)
+| OModuleDeposit (p : Z) (amt : lcoins)          (* DepositSpendingPoolFromModule: what x/ubi does after minting *)
+| ORotate (a a' : Z) (pre_ok : bool).            (* x/recovery MsgRotateRecoveryAddress a -> a'; [pre_ok] = the
+     preconditions outside this model (recovery secret and proof, fee, account existence, rotation history)
+     hold, as read from the real state by the harness.  The roles move too: see [actors_rotate], applied
+     by the threaded runs below. *)
 
 (* the payout failures that the repaired code reports as an error *)
 Definition payout_panic (m : string) : bool :=
@@ -289,6 +314,16 @@ Definition sp_apply (now : Z) (o : sp_op) (s : sstate) : outcome sstate :=
       if negb (coins_valid amt) then Err "invalid coins" else
       if negb (cge_on (cdenoms amt) (s_bank s a) (cof amt)) then Err "insufficient funds"
       else Ok (mkS (s_pools s) (s_claims s) (bank_send (s_bank s) a MODULE (cof amt)))
+  | OModuleDeposit p amt =>
+      if negb (coins_valid amt) then Err "invalid coins" else
+      match zget p (s_pools s) with
+      | None => Err "pool does not exist"
+      | Some P => Ok (mkS (zset p (mkPool (p_terms P) (cadd (p_bal P) (cof amt)) (p_lastcalc P)) (s_pools s)) (s_claims s)
+                          (fun x => if x =? MODULE then cadd (s_bank s x) (cof amt) else s_bank s x))
+      end
+  | ORotate a a' pre_ok =>
+      if negb pre_ok || (a =? a') then Err "rotation refused" else
+      Ok (mkS (s_pools s) (claims_rotate a a' (s_claims s)) (bank_rotate (s_bank s) a a'))
   | OBadQuorum upd p T =>
       if quorum_checked then Err "vote quorum should be between 0 and 1"
       else if upd then sp_update p T s else sp_create now p T s
@@ -300,3 +335,16 @@ Definition sp_run (s : sstate) (h : list (Z * sp_op)) : sstate := fold_left sp_s
 
 Definition sum_books (s : sstate) (d : Z) : Z := zsum (map (fun e => p_bal (snd e) d) (s_pools s)).
 End Cfg.
+
+(* histories in which the roles follow rotated addresses: the actors are part of the state *)
+Definition next_actors (order : list Z) (acts : list (Z * list Z)) (o : sp_op) : list (Z * list Z) :=
+  match o with ORotate a a' _ => actors_rotate order a a' acts | _ => acts end.
+Definition spw_step (dynguard payout_safe quorum_checked : bool) (order U : list Z)
+           (w : list (Z * list Z) * sstate) (e : Z * sp_op) : list (Z * list Z) * sstate :=
+  match sp_apply dynguard payout_safe quorum_checked (fst w) U (fst e) (snd e) (snd w) with
+  | Ok s' => (next_actors order (fst w) (snd e), s')
+  | _ => w
+  end.
+Definition spw_run dynguard payout_safe quorum_checked order U w h :=
+  fold_left (spw_step dynguard payout_safe quorum_checked order U) h w.
+
